@@ -16,6 +16,16 @@ def run(ctx):
     gen_thrift.keep_unknown(rep)
     if ctx['tier'] == 'thorough':
         gen_thrift.keep_unknown(rep, split=True)   # same rules on the split-file output
+    # the runtime side of retention: the retained chunk is cut out by get_bytes and put back by write_bytes_without_len;
+    # for the unchecked codec these two obey the cursor discipline of C11 (commit pending bytes before linking a chunk in;
+    # flush / re-derive around every split of the transport; no cursor read after a flush)
+    import mirlib
+    import unsafe_codec
+    from vpcheck import ws_facts
+    prog = mirlib.load_program([ws_facts('ws')])
+    cg = mirlib.CallGraph(prog)
+    unsafe_codec.zero_copy_sites(rep, 'R13.w', prog, cg)
+    unsafe_codec.reader_accounting(rep, 'R13.r', prog, cg)
     rep.programs = 7
     rep.disagreements_checked = rep.obligations
     rep.floor('G13.a', 35)
